@@ -251,6 +251,10 @@ Check(tr, e) ==
       [] e.ev = "OpBody" ->
             \* one generated optimization-mode function body, decided for all inputs at once
             IF e.branch = "be" /\ e.uses_byte_view THEN "byte-view-in-big-endian-branch"
+            \* a Go encoder ORs into s: the buffer has to be a fresh (zeroed) one of exactly the message's size,
+            \* allocated by this call -- anything else carries bits of earlier calls
+            ELSE IF e.kind = "enc" /\ "buffer" \in DOMAIN e /\ e.buffer.kind # "fresh" THEN "go-encoder-buffer-not-fresh"
+            ELSE IF e.kind = "enc" /\ "buffer" \in DOMAIN e /\ e.buffer.n # NBytes(t) THEN "go-encoder-buffer-size"
             ELSE IF e.kind = "enc"
                  THEN LET st == Run(EncState0(t), e.stmts, e.mode)
                       IN  IF st.wire = ExpectedWire(t) THEN ""
@@ -261,6 +265,10 @@ Check(tr, e) ==
                           ELSE IF \E x \in 1..Len(st.mem) : \E b \in 1..Len(st.mem[x]) : st.mem[x][b] = Old
                                THEN "decoder-relies-on-unzeroed-target"
                           ELSE "decoder-bits"
+      [] e.ev = "GoEncBuffer" ->
+            \* the buffer of a Go optimization-mode encoder alone (large messages, whose bodies are not evaluated)
+            IF e.buffer.kind # "fresh" THEN "go-encoder-buffer-not-fresh"
+            ELSE IF e.buffer.n # NBytes(t) THEN "go-encoder-buffer-size" ELSE ""
       [] e.ev = "GoStruct" ->
             \* fields in field-number order, each with the smallest covering Go type
             IF e.fields = [x \in 1..Len(t.fields) |-> GoShape(FieldsInOrder(t)[x].t)]
